@@ -7,6 +7,7 @@ import (
 	"fmt"
 	"reflect"
 	"runtime"
+	"sync"
 
 	"github.com/hashicorp/go-argmapper/internal/graph"
 )
@@ -81,6 +82,11 @@ type Func struct {
 	name       string
 	once       bool
 	onceResult *Result
+
+	// onceMu serializes the calls of a FuncOnce function so that the check
+	// for a memoized result, the execution and the memoization are atomic.
+	// It is a pointer so that copies of the Func share it.
+	onceMu *sync.Mutex
 }
 
 // MustFunc can be called around NewFunc in order to force success and
@@ -132,14 +138,19 @@ func NewFunc(f interface{}, opts ...Arg) (*Func, error) {
 		return nil, err
 	}
 
-	return &Func{
+	result := &Func{
 		fn:       fv,
 		input:    inTyp,
 		output:   outTyp,
 		callOpts: opts,
 		name:     args.funcName,
 		once:     args.funcOnce,
-	}, nil
+	}
+	if result.once {
+		result.onceMu = &sync.Mutex{}
+	}
+
+	return result, nil
 }
 
 // NewFuncList initializes multiple Funcs at once. This is the same as
